@@ -14,6 +14,8 @@
            register keys (unique values; set/get/getset/del, read-modify-write scripts) and a
            counter key (INCRBY, script increment), multi-key batches across shards, occasional
            cancellation; invocation/response tickets from one atomic counter.
+   Conn  : the same workload through real connection handlers on duplex streams sharing one state
+           (the handler picks its own fast / batched / generic path), pipelines of 1-4 commands.
 5. TV    : LinTrace searches, per key, a total order consistent with real time in which every
            reply is the sequential specification's.
 """
@@ -81,6 +83,15 @@ def run(tier):
             k = sorted(runs)[7]
             rep.sample({"mode": "free", "label": runs[k][0]["label"], "keys": runs[k][0]["keys"][:1]})
         os.remove(hf)
+    # the same through real connection handlers (duplex streams), pipelines of 1-4 commands
+    nc = 20000 if thorough else 1500
+    for i in range(0, nc, 5000):
+        hc = os.path.join(wd, f"conn{i}.ndjson")
+        vlib.vh(["lin", "conn", "--seed", vlib.seed() * 1000 + 500 + i // 5000, "--n", min(5000, nc - i), "--clients", 3 + (i // 5000) % 3, "--ops", 8,
+                 "--keys", 2, "--threads", 4, "--out", hc])
+        runs, _ = vlib.validate_runs(rep, "LinTrace", "LinTrace", hc, wd, f"connection{i}", describe="not linearizable: {what}", strip=())
+        account(runs)
+        os.remove(hc)
     rep.notes["history_statistics"] = stats
     rep.cov["distinct_nontrivial"] = stats["histories"]
     rep.cov["rule"] = ("a case is one concurrent history (scripted schedule or free-running run) on a fresh ShardedActorState; every history "
